@@ -389,7 +389,9 @@ def _stored():
                 M.append(dict(prop=p, id=f'refactoring:{d}', patch=pf, neutral=True))
 
 
-_stored()
+import os as _os
+if not _os.environ.get('KV_SELFTEST_HAND'):      # KV_SELFTEST_HAND=1: only the hand-written entries (the stored seeds / refactorings have their own regression tools)
+    _stored()
 mut('C06', 'gpu-transfer-also-ports', 'wave_sim.py', "    if y < ppio_start: return  # only state elements", "    # if y < ppio_start: return  # only state elements", 'C06.transfer')
 
 
@@ -444,6 +446,21 @@ _EVALUATED_ALIAS = {
     'C09': ({'C09.ctor', 'C09.remove', 'C09.containers', 'C09.backref', 'C10.copy', 'C10.pickle', 'C10.elim', 'C10.pins', 'C10.keys', 'C10.names', 'C10.sub-shape'}, 'C09.history'),
     'C10': ({'C10.copy', 'C10.pickle', 'C10.elim', 'C10.pins', 'C10.keys', 'C10.names', 'C10.sub-shape', 'C10.resolve', 'C09.remove', 'C09.ctor'}, 'C10.function'),
 }
+# second table: rules whose statement templates are not applied when the evaluated kernel / capture / constructor rules ran
+_EVALUATED_ALIAS2 = [
+    ({'C03.init'}, ['C03.kernel-eval']),
+    ({'C13.overflow', 'C13.count'}, ['C13.kernel-eval']),
+    ({'C04.provenance', 'C04.typing'}, ['C04.kernel-eval']),
+    ({'C03.parity', 'C03.bounds', 'C03.siblings'}, ['C03.kernel-eval']),
+    ({'C06.dataset', 'C13.accumulate', 'C06.kernel', 'C08.alloc'}, ['C06.dataset', 'C13.accumulate', 'C06.kernel', 'C08.alloc']),
+]
+for _m in M:
+    if _m.get('rule'):
+        _r = list(_m['rule']) if isinstance(_m['rule'], (list, tuple)) else [_m['rule']]
+        for _from, _to in _EVALUATED_ALIAS2:
+            if set(_r) & _from:
+                _r += [x for x in _to if x not in _r]
+        _m['rule'] = _r
 for _m in M:
     _al = _EVALUATED_ALIAS.get(_m.get('prop'))
     if _al and _m.get('rule'):
